@@ -76,12 +76,19 @@ class SleepPlan:
                 _time.sleep(d)
 
 
-class Traced:
-    """Wraps a posterior (and optionally its gradient): records every evaluation point and value."""
+class Stalled(Exception):
+    """Raised by a traced posterior when a single step has evaluated it an absurd number of times."""
 
-    def __init__(self, fn, keep=True):
+
+class Traced:
+    """Wraps a posterior (and optionally its gradient): records every evaluation point and value.
+    `limit` bounds the evaluations between two reset() calls (one sampler step): a retry loop that
+    cannot accept anything would otherwise never return."""
+
+    def __init__(self, fn, keep=True, limit=200000):
         self.fn = fn
         self.keep = keep
+        self.limit = limit
         self.points = []
         self.values = []
         self.n = 0
@@ -92,6 +99,8 @@ class Traced:
         if self.keep:
             self.points.append(np.array(t, dtype=float, copy=True))
             self.values.append(v)
+            if len(self.values) > self.limit:
+                raise Stalled(f"{len(self.values)} posterior evaluations without the step completing")
         return v
 
     def reset(self):
